@@ -374,6 +374,18 @@ def f_rtf_many_trowd_one_row(n):
     return "rtf", d, len(d)
 
 
+def f_rtf_footnote_run_before_deep_groups(n):
+    # footnotes whose plain run of n characters stands in front of something the footnote pattern cannot match as a whole: a group
+    # nest three and four deep, and a footnote that is never closed.  Matching must give up in time linear in n, not try every
+    # way of cutting the run into pieces.
+    run = "abcdefgh" * (n // 8) + "x" * (n % 8)
+    d = ("{\\rtf1\\ansi body text"
+         "{\\footnote " + run + "{\\b bold {\\i italic {\\ul underlined}}} tail}"
+         "{\\footnote " + run + "{\\b one {\\i two {\\ul three {\\strike four}}}} tail}"
+         " more body\\par{\\footnote " + run + " never closed \\par last paragraph\\par").encode("ascii") + b"}"
+    return "rtf", d, len(d)
+
+
 def f_rtf_deep_groups(n):
     d = b"{\\rtf1\\ansi " + b"{" * n + b"x" + b"}" * n + b"}"
     return "rtf", d, len(d)
@@ -737,6 +749,7 @@ FAMILIES = {
     "rtf-unclosed-header-groups": (f_rtf_unclosed_header_groups, [1_000, 2_000, 4_000, 8_000], "size"),
     "rtf-many-table-rows": (f_rtf_many_trowd, [750, 3_000, 12_000], "size"),
     "rtf-many-trowd-one-row": (f_rtf_many_trowd_one_row, [500, 1_000, 2_000], "size"),
+    "rtf-footnote-run-before-deep-groups": (f_rtf_footnote_run_before_deep_groups, [16, 24, 32, 48], "size"),
     "rtf-deep-groups": (f_rtf_deep_groups, [5_000, 10_000, 20_000, 40_000], "size"),
     "rtf-fonttbl-newline-run": (f_rtf_fonttbl_newlines, [2_500, 5_000, 10_000, 20_000], "size"),
     "mbox-many-messages": (f_mbox_many_messages, [1_000, 4_000, 16_000], "size"),
@@ -980,6 +993,11 @@ def work_limit(case):
             if case.get("hardlink"):
                 # a hard-link entry (its own size field is 0) with a supported extension pointing at the oversize member
                 members.insert(2, {"name": "data/copy.html", "type": "hardlink", "link": "big.txt"})
+            if case.get("dup"):
+                # the oversize member's name is listed twice (two local entries, two central-directory entries): a small entry of that
+                # name before or after it.  Each entry is judged and read as itself - a look-up by name finds only one of them
+                twin = {"name": "big.txt", "data": b"qa00003z small entry of the same name\n"}
+                members.insert(1 if case["dup"] == "small-first" else 2, twin)
             data = archives.build(case["layout"], members)
             del members
         tmp = tempfile.mkdtemp(prefix="verif-c12-")
@@ -1051,6 +1069,10 @@ def main(run):
         limits.append({"part": "limit", "which": "member-limit", "layout": layout, "member_size": 10 * MIB, "label": f"{layout} member of 10MiB", "expect": "extracted"})
     for layout in ("tar", "tar.gz"):
         limits.append({"part": "limit", "which": "member-limit", "layout": layout, "member_size": 10 * MIB + 1, "hardlink": True, "label": f"{layout} hard link to a member of 10MiB+1", "expect": "skipped"})
+    for layout in ("zip-deflated", "zip-stored"):
+        for dup in ("small-first", "oversize-first"):
+            limits.append({"part": "limit", "which": "member-limit", "layout": layout, "member_size": 10 * MIB + 1, "dup": dup,
+                           "label": f"{layout} member name listed twice ({dup}), one entry of 10MiB+1", "expect": "skipped"})
     # a .tar.gz whose gzip trailer does not describe the stream: RFC 1952 concatenation (ISIZE = size of the last gzip member) / forged ISIZE
     for layout in ("tar.gz-multi-member-gzip", "tar.gz-forged-isize", "tar.gz-single"):
         limits.append({"part": "limit", "which": "member-limit", "layout": layout, "member_size": 10 * MIB + 1, "label": f"{layout} member of 10MiB+1", "expect": "skipped"})
@@ -1109,7 +1131,7 @@ def main(run):
                 seen.append(key)
                 run.violation(key, f"{lab}: outcome {oc}, expected {exp}", rep)
         else:
-            fam = ("7z" if case["layout"].startswith("7z") else case["layout"]) + ("-after-reconfigure" if case.get("before") else "-after-configure" if case.get("configure") else "")
+            fam = ("7z" if case["layout"].startswith("7z") else case["layout"]) + ("-duplicate-name" if case.get("dup") else "") + ("-after-reconfigure" if case.get("before") else "-after-configure" if case.get("configure") else "")
             if case["expect"] == "skipped":
                 if ob.get("big_in_results"):
                     key = f"C12:limit:{fam}-member:oversize-member-produced-result"
@@ -1174,7 +1196,7 @@ def main(run):
     run.extras["measurements"] = table
     run.count("families_measured", sum(1 for f in table if len([r for r in table[f]]) >= 3))
     run.require("families_measured", run.counters["families_measured"], len(FAMILIES) - 1)
-    run.require("limit_probes", sum(1 for s in run.distinct if s.startswith("limit:")), 47)
+    run.require("limit_probes", sum(1 for s in run.distinct if s.startswith("limit:")), 51)
 
 
 def replay(run, doc):
